@@ -268,12 +268,17 @@ def run(tier, replay=None):
     locale_matches(prog, rep)
     # ---- AsRef impls
     asref(prog, rep)
+    # ---- the truth tables read "Some(empty list)" as empty, while the derived == inside matches does not: the wildcard formula holds only
+    # on values whose "no variants" is always None -- the representation typestate of every constructor and mutator (shared with C10/C12)
+    from . import c10
+    nctor = c10.representation_obligations(rep, cfgs=('K0',))
+    rep.floor('constructors analysed', nctor, 5)
     rep.count('decision paths analysed', total_paths)
     rep.floor('decision paths', total_paths, 200)
     rep.explanation = ('Finite truth tables decided symbolically: each matches body is explored path by path (callees inlined, every branch on a flag, on the '
                        'presence of a field or on a field equality is a fork); each path is compared with the wildcard formula under every completion of its '
                        'partial valuation.  Symmetry, reflexivity, monotonicity in the flags and coincidence with equality are consequences of the formula.')
-    rep.assumptions = ['derived PartialEq on Option/Box<[T]> is structural equality (std)', 'Some(empty list) is treated as empty (it never occurs: C10/C12 typestate rule)']
+    rep.assumptions = ['derived PartialEq on Option/Box<[T]> is structural equality (std)', 'values built with the unchecked constructors are outside the quantifier']
     return rep.finish()
 
 
